@@ -456,60 +456,64 @@ theorem denotes_unique {v : PyVal ℝ} {n : ℕ} {t t' : Table ℝ} (h : Denotes
         · cases he
         · cases he; rw [half_unique ha ha']
 
-/-- `GDevice` / `PVDevice`: accepted iff the base setter accepts, numpy can turn the *raw* argument into a
-regular array (NB: this excludes the documented `(number, vector)` form — recorded as a finding), and every
-upper bound is a number `≤ 0`. -/
+/-- `GDevice` / `PVDevice`: accepted iff the base setter accepts and every upper bound is a number `≤ 0`
+(every documented form included: the setter no longer runs `np.array` over the raw argument). -/
 theorem gen_bounds_iff {v : PyVal ℝ} {n : ℕ} {t : Table ℝ} :
-    genBounds v n = .ok t ↔
-      deviceBounds v n = .ok t ∧ npShape v ≠ none ∧ ∀ r ∈ t, ∃ h, r.2 = some h ∧ h ≤ 0 := by
-  unfold genBounds
-  cases hd : deviceBounds v n with
+    genBounds v n = .ok t ↔ deviceBounds v n = .ok t ∧ ∀ r ∈ t, ∃ h, r.2 = some h ∧ h ≤ 0 := by
+  unfold genBounds deviceBounds
+  cases hv : validateBoundsW v n with
   | error e => simp
-  | ok t0 =>
+  | ok p =>
+    obtain ⟨w, t0⟩ := p
     simp only
-    by_cases hsh : npShape v = none
-    · simp [hsh]
-    · rw [if_neg hsh]
-      unfold hbNonpos
-      constructor
-      · intro h
-        split_ifs at h with h1 h2
-        · simp at h
-          subst h
-          refine ⟨rfl, hsh, ?_⟩
-          intro r hr
-          have := (List.all_eq_true.mp h2) r hr
-          cases hr2 : r.2 with
-          | none => simp [hr2] at this
-          | some hh => simp [hr2] at this; exact ⟨hh, rfl, this⟩
-      · rintro ⟨he, _, hall⟩
-        cases he
-        split_ifs with h1 h2
-        · exfalso
-          obtain ⟨r, hr, hnone⟩ := List.any_eq_true.mp h1
-          obtain ⟨hh, e, _⟩ := hall r hr
-          simp [e] at hnone
-        · rfl
-        · exfalso
-          apply h2
-          apply List.all_eq_true.mpr
-          intro r hr
-          obtain ⟨hh, e, hle⟩ := hall r hr
-          simp [e, hle]
+    cases hh : hbNonpos t0 with
+    | error e =>
+      simp only [reduceCtorEq, false_iff, not_and]
+      intro h1 h2
+      split_ifs at h1 with hw
+      cases h1
+      rw [hbNonpos_of h2] at hh
+      cases hh
+    | ok u =>
+      simp only
+      split_ifs with hw
+      · constructor
+        · intro e; cases e; exact ⟨rfl, hbNonpos_ok hh⟩
+        · rintro ⟨e, _⟩; exact e
+      · simp
 
-/-- the witness of that finding: on a 3-slot generator `(−1, [0, 0, 0])` — lower bound −1 everywhere, upper bound
-0 everywhere, a documented form the base class accepts — is rejected. -/
-theorem gen_bounds_rejects_documented_form :
-    ∃ (v : PyVal ℝ) (t : Table ℝ), deviceBounds v 3 = .ok t ∧ (∀ r ∈ t, ∃ h, r.2 = some h ∧ h ≤ 0) ∧
-      genBounds v 3 = .error .valueError := by
-  refine ⟨.seq .tuple [.num (-1), .seq .list [.num 0, .num 0, .num 0]],
-    [(some (-1), some 0), (some (-1), some 0), (some (-1), some 0)], ?_, ?_, ?_⟩
-  · simp [deviceBounds, validateBoundsW, npShape, commonShape, pairPath, normElem, pyLen, entries, scalars, scalar?,
-      finish, zipRows, rowAllNone, rowHasNone, rowOrdered, rowPair]
-  · intro r hr
-    simp at hr
-    rcases hr with rfl | rfl | rfl <;> exact ⟨0, rfl, le_refl _⟩
-  · simp [genBounds, deviceBounds, validateBoundsW, npShape, commonShape, pairPath, normElem, pyLen, entries, scalars, scalar?,
-      finish, zipRows, rowAllNone, rowHasNone, rowOrdered, rowPair]
+/-- `validate_bounds` returns an array of a width other than 2 only on a length-2 device (and only in the
+`Misread` region). -/
+theorem misread_only_at_two {v : PyVal ℝ} {n w : ℕ} {t : Table ℝ} (h : validateBoundsW v n = .ok (w, t)) (hw : w ≠ 2) :
+    n = 2 ∧ Misread v n := by
+  rcases validateBoundsW_spec h with ⟨h2, _⟩ | ⟨_, hm⟩
+  · exact absurd h2 hw
+  · exact ⟨hm.1, hm⟩
+
+/-- **on a device of any length but 2, a rejected assignment — to any field — leaves the device exactly as it was.** -/
+theorem rejected_keeps_state_of_ne_two {d d' : Dev ℝ} {f : Field} {v : Val ℝ} {err : Err}
+    (h : setField d f v = (d', some err)) (hn : d.n ≠ 2) : d' = d := by
+  rcases rejected_assignment_keeps_state h with h' | ⟨bv, w, t, _, _, hw, hw2, _⟩
+  · exact h'
+  · exact absurd (misread_only_at_two hw hw2).1 hn
+
+/-- **`TDevice` reports what was supplied**: the bounds table its specification denotes, the cumulative bounds in
+4-tuple form, and `sustainment`, `efficiency`, `t_init`, `t_optimal`, `t_range`, `t_external`, `c` verbatim — and it is
+constructed only when `0 ≤ sustainment ≤ 1`, `efficiency ≠ 0`, `t_range ≥ 0`, `len(t_external) = n`, `c ≥ 0`. -/
+theorem tdevice_reported_eq_supplied {n : ℕ} {bv : PyVal ℝ} {cb : CbSpec ℝ} {s e ti topt tr : ℝ} {te : List ℝ} {c : PVal ℝ}
+    {d : TDev ℝ} (h : tdeviceCtor n bv cb s e ti topt tr te c = .ok d) :
+    deviceBounds bv n = .ok d.table ∧ cbMeaning n cb = some d.cbounds ∧
+    d.sustainment = s ∧ d.efficiency = e ∧ d.tInit = ti ∧ d.tOptimal = topt ∧ d.tRange = tr ∧ d.tExternal = te ∧ d.c = c ∧
+    ((0 ≤ s ∧ s ≤ 1) ∧ e ≠ 0 ∧ 0 ≤ tr ∧ te.length = n ∧ c.lenOk n = true ∧ ∀ x ∈ PVal.toList c, 0 ≤ x) := by
+  unfold tdeviceCtor at h
+  cases hc : construct Cls.device n bv cb ([] : List (Field × Val ℝ)) with
+  | error e' => simp [hc] at h
+  | ok d0 =>
+    simp only [hc] at h
+    split_ifs at h with hchk
+    cases h
+    obtain ⟨_, _, hb, hcb, _, _⟩ := reported_eq_supplied hc (by simp) (by simp)
+    have hb' : deviceBounds bv n = .ok d0.table := by simpa using hb
+    exact ⟨hb', hcb (by decide), rfl, rfl, rfl, rfl, rfl, rfl, rfl, (tdeviceCheck_iff n s e tr te.length c).mp hchk⟩
 
 end DK.C11
